@@ -68,7 +68,7 @@ func runCheck(o checkOpts) int {
 		ps := e.specs[p]
 		for _, key := range ps.Order {
 			c := ps.Contracts[key]
-			if c.Trusted || !contains(c.Props, o.prop) {
+			if c.Trusted || c.Inline || !contains(c.Props, o.prop) {
 				continue
 			}
 			fn := e.findFunc(p, key)
@@ -406,6 +406,15 @@ func runCheck(o checkOpts) int {
 	}
 	for _, x := range e.extraAssumptions[o.prop] {
 		assumptions = append(assumptions, x)
+	}
+	for _, u := range usedC {
+		for fn := range e.allFuncs {
+			if fn.String() == u {
+				if c := e.contractOf(fn); c != nil && c.Trusted {
+					assumptions = append(assumptions, "TRUSTED (assumed, not verified) contract of "+u)
+				}
+			}
+		}
 	}
 	sort.Strings(assumptions)
 	cov := map[string]interface{}{
